@@ -512,4 +512,15 @@ theorem c11_emitted_cuwp_reference_is_its_slot {cfg : RichCfg} {secs : List RSec
   rw [hctx]
   exact c11_emitted_slot_holds_its_cuwp h table ht hnd c hc i hi
 
+/-- **every location of the emitted table is written as its own slot number**: with the table the rebuild produced
+as the encode context, a reference to a location that sits in it at slot `i` is written as `i` (and by
+`c11_emitted_slot_holds_its_location` slot `i` holds exactly that location) -/
+theorem c11_emitted_location_reference_is_its_slot (ctx : EncCtx) (l : RLoc) (hl : l ∈ ctx.locs) (i : Nat)
+    (hi : l.idx = some i) : locId ctx l = some i := by
+  unfold locId
+  rw [hi]
+  have hself : RLoc.same l l = true := by simp [RLoc.same, hi]
+  have : ctx.locs.any (fun t => RLoc.same t l) = true := List.any_eq_true.mpr ⟨l, hl, hself⟩
+  simp [this]
+
 end Richchk.Props.C11
